@@ -19,6 +19,14 @@ program must verify, define every value before its use, contain no eqsat op, and
 back the source up to op order.  A matcher shipped in the corpus next to its PDL source (rebuilding.mlir) is used as
 a second matcher for its rule set.
 
+Further enumerated dimensions (each exhaustive within its stated bound, see `pipelines_for` / `enumerate_programs`):
+property twins (two arith.cmpi equal up to the predicate PROPERTY on shared operands behind an identity a rule fires
+on, observed as i1 results or through arith.select: congruence closure must not union them); cost models (the corpus
+cost file and every {0,1} cost assignment to constant/addi/muli/subi as a cost_file next to default=1: a zero-cost
+self-referential e-node must never be selected -- an extracted value that depends on itself is a violation, the
+program cannot be executed); pattern order of rule pairs; two-function modules (a rule creating a constant in one
+function while the same constant lives in the other: every function must verify and compute its own results).
+
 Rule soundness is decided here, not assumed: lhs/rhs of every corpus rule are turned into two functions and compared
 with mc.refsem on a dense i32 grid and exhaustively at i4 (refinement: wherever the lhs is defined the rhs is defined
 and equal); unsound / unsupported rules are skipped and counted.
@@ -922,15 +930,15 @@ def check_program(st: Stats, case, only=None) -> None:
         return
     st.bump("source_inputs_excluded_as_undefined", sum(f["ninputs"] - len(f["results"]) for f in src["functions"]))
     for pipe in ([only] if only is not None else pipelines_for(case)):
-        signal.signal(signal.SIGALRM, _alarm)
-        signal.alarm(CASE_TIMEOUT_S)
+        signal.signal(signal.SIGPROF, _alarm)    # CPU time of this process, so machine load cannot fake a hang
+        signal.setitimer(signal.ITIMER_PROF, CASE_TIMEOUT_S)
         try:
             out = run_pipeline(st, specs, pipe, src)
         except _CaseTimeout:
             out = "timeout"
-            st.cap(f"a pipeline run exceeded {CASE_TIMEOUT_S}s")
+            st.cap(f"a pipeline run exceeded {CASE_TIMEOUT_S}s of CPU time")
         finally:
-            signal.alarm(0)
+            signal.setitimer(signal.ITIMER_PROF, 0)
         if "rule-fired" in out:
             st.nontrivial += 1
         kindl = pipe[0] if pipe[0] != "rules" else f"rules/{pipe[1]}/cap{pipe[3]}"
